@@ -60,6 +60,12 @@ pub fn b64() -> Vec<u64> {
         0x000f_edcb_a987_6000,
         0x0000_0181_c0e0_9000, // indices (3,7,7,9)
     ]);
+    // irregular mid-range patterns (fixed: multiples of the 64-bit golden-ratio constant and of a second odd constant),
+    // so that a defect tied to "some bit in the middle" or to an unremarkable value is not invisible between the boundaries
+    for i in 1..=24u64 {
+        v.push(i.wrapping_mul(0x9e37_79b9_7f4a_7c15));
+        v.push(i.wrapping_mul(0xd1b5_4a32_d192_ed03) >> (i % 17));
+    }
     v.sort_unstable();
     v.dedup();
     v
@@ -85,6 +91,10 @@ pub fn b64_small() -> Vec<u64> {
         }
     }
     v.extend_from_slice(&[0x0123_4567_89ab_cdef, 0xfedc_ba98_7654_3210, 0x0000_1234_5678_9abc, 0xffff_9234_5678_9abc]);
+    for i in 1..=6u64 {
+        v.push(i.wrapping_mul(0x9e37_79b9_7f4a_7c15));
+        v.push(i.wrapping_mul(0xd1b5_4a32_d192_ed03) >> (7 * i));
+    }
     v.sort_unstable();
     v.dedup();
     v
